@@ -10,7 +10,7 @@ CHECKS = {
     "C01": dict(
         category="model_checking",
         technique="explicit-state exploration of the real lot matcher over the prefix tree of histories (bounded exhaustive, deviation-bounded), order monitor + reference matcher",
-        text="Every valid single-asset history over a 14-symbol alphabet up to depth 4 (thorough 5) is executed from scratch through compute_tax under each of fifo/lifo/hifo/lofo, every two-year (thorough: three-year) method schedule, with 1 (2) deviations in disposal type / UTC offset / amount scale and with sheet order reversed; on every node a monitor checks that no strictly better-ranked lot with balance was passed over, and tie-free traces must equal the reference matcher's pairing. This is the deepest level the family offers for a sequential matcher: all interleavings within the bound, none sampled. Also: a purchase carrying a large fiat fee at every purchase position (fee-inclusive unit cost ranks differently from spot price) and same-instant events falling under different methods of a schedule. A front-end phase (spreadsheet -> parse_ods -> compute_tax, both sheet orders) runs the tree over an alphabet with acquisitions paying a crypto fee (the parser's fee-only disposals take lots in method order too). Further phases: steps of 250 ms with reversed sheet order; every two- and three-year schedule x every order of the [accounting_methods] lines written to a config file and read back by the real Configuration. The 34 asset sheets of the 9 inputs bundled with RP2 are judged by the same monitor under 4 methods x 12 two-year schedules.",
+        text="Every valid single-asset history over a 14-symbol alphabet up to depth 4 (thorough 5) is executed from scratch through compute_tax under each of fifo/lifo/hifo/lofo, every two-year (thorough: three-year) method schedule, with 1 (2) deviations in disposal type / UTC offset / amount scale and with sheet order reversed; on every node a monitor checks that no strictly better-ranked lot with balance was passed over, and tie-free traces must equal the reference matcher's pairing. This is the deepest level the family offers for a sequential matcher: all interleavings within the bound, none sampled. Also: a purchase carrying a large fiat fee at every purchase position (fee-inclusive unit cost ranks differently from spot price) and same-instant events falling under different methods of a schedule. A front-end phase (spreadsheet -> parse_ods -> compute_tax, both sheet orders) runs the tree over an alphabet with acquisitions paying a crypto fee (the parser's fee-only disposals take lots in method order too). Further phases: steps of 250 ms with reversed sheet order; every two- and three-year schedule x every order of the [accounting_methods] lines written to a config file and read back by the real Configuration. The 34 asset sheets of the 9 inputs bundled with RP2 are judged by the same monitor under 4 methods x 12 two-year schedules. Also: another asset computed first with the same engine and method objects (its lots on the same rows, ranked differently).",
         note="Trusts the reference model in rp2verif/models/lots.py (40 lines, exact rationals); histories outside the alphabet or deeper than the completed depth are not covered; ties on the primary key are deliberately not ordered.",
         design="3/C01",
     ),
@@ -24,7 +24,7 @@ CHECKS = {
     "C03": dict(
         category="exploration",
         technique="bounded-exhaustive enumeration of all sequences over the 21 (table, type) symbols on the real compute_tax, independent taxability table",
-        text="All sequences of up to 4 (thorough 5) transactions over every (table, transaction type) pair - 10 IN types, 6 OUT types, a SELL with fee, a fee-typed disposal at spot price 0, transfers with and without fee, a fee-bearing transfer to self - after a covering purchase, one day apart and with every placement of one (two) same-instant steps, under fifo and hifo (thorough: all four): the taxable event set and the gain/loss set must contain exactly the rows an independent table says, once, in full, lot-less with zero cost for income, under the row's own type. Also through the whole front end (spreadsheet -> parse_ods -> compute_tax): acquisitions of every one of the 10 IN types paying their fee in crypto (the fee is a fee-typed disposal at the same instant), sequences up to 2 (thorough 3) after a covering purchase, both sheet orders, fifo / hifo.",
+        text="All sequences of up to 4 (thorough 5) transactions over every (table, transaction type) pair - 10 IN types, 6 OUT types, a SELL with fee, a fee-typed disposal at spot price 0, transfers with and without fee, a fee-bearing transfer to self - after a covering purchase, one day apart and with every placement of one (two) same-instant steps, under fifo and hifo (thorough: all four): the taxable event set and the gain/loss set must contain exactly the rows an independent table says, once, in full, lot-less with zero cost for income, under the row's own type. Also through the whole front end (spreadsheet -> parse_ods -> compute_tax): acquisitions of every one of the 10 IN types paying their fee in crypto (the fee is a fee-typed disposal at the same instant), sequences up to 2 (thorough 3) after a covering purchase, both sheet orders, fifo / hifo. Also: every timestamp late in the evening at -05:00 / early in the morning at +09:00 with a date window from the first to the last own date (it hides nothing, every taxable row must still be reported).",
         note="The taxability table is written independently in rp2verif/props/c03.py. Negative STAKING acquisitions and transfer fees worth < 5e-14 fiat are outside the alphabet.",
         design="3/C03",
     ),
@@ -38,98 +38,98 @@ CHECKS = {
     "C05": dict(
         category="exploration",
         technique="exhaustive boundary grid (instants x deltas x UTC offsets x country configurations) on the real compute_tax, epoch-second oracle",
-        text="6 acquisition instants (leap day, year end) x 9 deltas around the threshold (P-1s, P, P+1s, +-12h, +-1d, 0, 2P) x 16 UTC-offset pairs x 10 country configurations (us, es, jp, ie, generic with 6 LONG_TERM_CAPITAL_GAINS values), plus a sale straddling the threshold over two lots and income events; the LONG/SHORT flag of every fraction and the split of the yearly summary are compared with floor(elapsed seconds / 86400) >= P. The LONG/SHORT column of rp2_full_report.ods and tax_report_us.ods is read back for disposals, transfer fees and income on both sides of the threshold. Thorough: 54 acquisition instants (first and last second of every month of 2019-2020), 18 deltas from 250 ms to a day on both sides, 64 offset pairs (half-hour offsets included), 15 country configurations, the disposal rotating over sale / gift / fee / transfer fee (about 1 M cases).",
+        text="6 acquisition instants (leap day, year end) x 9 deltas around the threshold (P-1s, P, P+1s, +-12h, +-1d, 0, 2P) x 25 UTC-offset pairs (half-hour offsets east and west included) x 10 country configurations (us, es, jp, ie, generic with 6 LONG_TERM_CAPITAL_GAINS values), plus a sale straddling the threshold over two lots and income events; the LONG/SHORT flag of every fraction and the split of the yearly summary are compared with floor(elapsed seconds / 86400) >= P. The LONG/SHORT column of rp2_full_report.ods and tax_report_us.ods is read back for disposals, transfer fees and income on both sides of the threshold. Thorough: 54 acquisition instants (first and last second of every month of 2019-2020), 18 deltas from 250 ms to a day on both sides, 81 offset pairs, 15 country configurations, the disposal rotating over sale / gift / fee / transfer fee (about 1 M cases).",
         note="Only the listed thresholds and instants; timedelta arithmetic of the oracle is on epoch seconds.",
         design="3/C05",
     ),
     "C06": dict(
         category="exploration",
         technique="bounded-exhaustive prefix tree of multi-year histories x every window of interest on the real pipeline, regrouping oracle in exact rationals",
-        text="Every multi-year history (steps +1d/+200d/+365d, 8 symbols) up to depth 3 under fifo/lifo/hifo and depth 4 under hifo (thorough: depth 4 x 4 methods, depth 5 x 2) is run once unfiltered and once per to-date / from-date of interest (on and the day before every transaction, year ends, year starts, mid-year); the yearly list must have exactly the keys of the detail fractions, once, with equal sums of all four figures, and grand totals equal to the detail table. Also: timestamps at -05:00 on New Year's Eve (own year != UTC year) and 2-hour steps across two midnights with one transaction written in another UTC offset (own dates not monotonic along the instants). The 34 asset sheets of the 9 inputs bundled with RP2 x 4 methods x every to-/from-date of interest are judged too.",
+        text="Every multi-year history (steps +1d/+200d/+365d, 8 symbols) up to depth 3 under fifo/lifo/hifo and depth 4 under hifo (thorough: depth 4 x 4 methods, depth 5 x 2) is run once unfiltered and once per to-date / from-date of interest (on and the day before every transaction, year ends, year starts, mid-year); the yearly list must have exactly the keys of the detail fractions, once, with equal sums of all four figures, and grand totals equal to the detail table. Also: timestamps at -05:00 on New Year's Eve (own year != UTC year) and 2-hour steps across two midnights with one transaction written in another UTC offset (own dates not monotonic along the instants). The 34 asset sheets of the 9 inputs bundled with RP2 x 4 methods x every to-/from-date of interest are judged too. Also: lots whose exchange-supplied fiat columns do not add up (with-fee != no-fee + fee).",
         note="In the mixed-offset phase the summary is compared with the detail table of the same run; the long/short flag of a fraction is taken from RP2 (C05 decides it).",
         design="3/C06",
     ),
     "C07": dict(
         category="exploration",
         technique="bounded-exhaustive 3-account prefix tree on the real pipeline x to-dates x -n, reference account replay + lot reconciliation",
-        text="Every history up to depth 3 (thorough 4) over 30 symbols on 3 accounts (2 exchanges x 2 holders; buys, income, sales, transfers with/without fee between all ordered pairs and to self) x fifo/hifo x -n off/on x every to-date: each account's acquired / sent / received / final equals the reference replay, every touched account appears once, and the sum of final balances equals acquired lots minus consumed fractions. Also: amounts x 1e-6 (transfer fees worth far less than a cent), and the balance tables of rp2_full_report read back, incl. same-instant purchases paying crypto fees without unique ids. Also: every timestamp at -05:00 / +09:00 (own date != UTC date) x every to-date. The 34 asset sheets of the 9 inputs bundled with RP2 (4 exchanges x 2 holders) x every to-date x -n off / on are judged too.",
+        text="Every history up to depth 3 (thorough 4) over 30 symbols on 3 accounts (2 exchanges x 2 holders; buys, income, sales, transfers with/without fee between all ordered pairs and to self) x fifo/hifo x -n off/on x every to-date: each account's acquired / sent / received / final equals the reference replay, every touched account appears once, and the sum of final balances equals acquired lots minus consumed fractions. Also: amounts x 1e-6 (transfer fees worth far less than a cent), and the balance tables of rp2_full_report read back, incl. same-instant purchases paying crypto fees without unique ids. Also: every timestamp at -05:00 / +09:00 (own date != UTC date) x every to-date. The 34 asset sheets of the 9 inputs bundled with RP2 (4 exchanges x 2 holders) x every to-date x -n off / on are judged too. Also: every from-date x every to-date (a from-date never changes a balance).",
         note="Per-holder totals exist only in the report and are read back in C13.",
         design="3/C07",
     ),
     "C08": dict(
         category="model_checking",
         technique="explicit-state exploration of the 3-account history tree (transient overdrafts, intraday steps, epsilon deviations) on the real pipeline against a reference replay with an explicit either-zone",
-        text="Every history up to depth 3 (thorough 4) over the 30-symbol 3-account alphabet with steps same-instant / +1h / +1d, including overdrawing, transiently overdrawing and globally over-spent histories, plus amount+epsilon (4e-11 .. 1e-9) at every outgoing position, x -n off/on: must be rejected when every ordering of equal-instant groups dips below -1e-10, must be accepted when no ordering goes negative, the error names an overdrawn account, and with -n the negative balance is reported. Also: reversed sheet order, and every history of depth <= 2 plus first-funds-pay-a-crypto-fee histories through the real command line without and with -n.",
+        text="Every history up to depth 3 (thorough 4) over the 30-symbol 3-account alphabet with steps same-instant / +1h / +1d, including overdrawing, transiently overdrawing and globally over-spent histories, plus amount+epsilon (4e-11 .. 1e-9) at every outgoing position, x -n off/on: must be rejected when every ordering of equal-instant groups dips below -1e-10, must be accepted when no ordering goes negative, the error names an overdrawn account, and with -n the negative balance is reported. Also: reversed sheet order, and every history of depth <= 2 plus first-funds-pay-a-crypto-fee histories through the real command line without and with -n. Also: transactions 250 ms apart within one second around a crypto-fee purchase, through the command line.",
         note="What is acquired at an instant is available to what leaves at that instant (must accept); the order among the transfers and disposals of one instant and dips between -1e-10 and 0 are left open by the property and are not judged. 'No report is produced' is decided end-to-end in C12.",
         design="3/C08",
     ),
     "C09": dict(
         category="model_checking",
         technique="explicit-state exploration of every (node, cut) edge of the history prefix tree on the real pipeline; differential oracle: run of the whole history vs run of the truncated history vs run limited by to-date",
-        text="Every valid history up to depth 4 (thorough 5) over an alphabet biased to continuations the method would prefer (all three price ranks, newer lots, income lots, partial and spanning sales, transfer fee) x fifo/lifo/hifo/lofo and the 12 two-year schedules, steps same-instant / +1h / +1d / +1y, both sheet orders: for every cut between two distinct timestamps the figures of all events at or before the cut (pairing, amounts, proceeds, cost, gain, long/short, k/n, closed years) equal those of the truncated history, and the run limited by to-date equals the truncated run on the complete canonical dump (rows, running sums, sold %, counts, yearly lines, balances, average price). Checked on every edge, it holds for every continuation within the bound by transitivity. Also: two assets computed in one run with one engine (asset B1 grows in 2020+, asset B2 lies wholly in 2019): B2's complete dump must equal the run truncated at 2019-12-31. Every cut of the 34 asset sheets of the 9 inputs bundled with RP2 x 4 methods is judged too.",
+        text="Every valid history up to depth 4 (thorough 5) over an alphabet biased to continuations the method would prefer (all three price ranks, newer lots, income lots, partial and spanning sales, transfer fee) x fifo/lifo/hifo/lofo and the 12 two-year schedules, steps same-instant / +1h / +1d / +1y, both sheet orders: for every cut between two distinct timestamps the figures of all events at or before the cut (pairing, amounts, proceeds, cost, gain, long/short, k/n, closed years) equal those of the truncated history, and the run limited by to-date equals the truncated run on the complete canonical dump (rows, running sums, sold %, counts, yearly lines, balances, average price). Checked on every edge, it holds for every continuation within the bound by transitivity. Also: two assets computed in one run with one engine (asset B1 grows in 2020+, asset B2 lies wholly in 2019): B2's complete dump must equal the run truncated at 2019-12-31. Every cut of the 34 asset sheets of the 9 inputs bundled with RP2 x 4 methods is judged too. Also: two or three same-instant disposals over two lots plus a continuation with the sheet order reversed, the truncated history re-written as its own sheet (every remaining row renumbered, here across 9 -> 10), transactions identified by their position in time.",
         note="Differential: both sides are the real code, so a defect that affects both runs identically is invisible here (C01/C02 judge absolute correctness). Single UTC offset.",
         design="3/C09",
     ),
     "C10": dict(
         category="exploration",
         technique="bounded-exhaustive history tree x every from<=to pair over the dates of interest on the real pipeline; differential oracle against the unfiltered and the to-date-only run",
-        text="Every valid multi-year history up to depth 3 (thorough 4) over 7 symbols x fifo/hifo (thorough: 4 methods) x EVERY window from <= to (either bound may be absent) over each transaction date +-1 day, Jan 1 / Jul 1 / Dec 31 of touched years and dates outside the history (150-250 windows per history), also with every timestamp in +09:00 so that own calendar date != UTC date: rows and fractions shown are exactly those dated in the window, every figure equals the unfiltered run, counts / balances / average price equal the to-date-only run, yearly lines are the to-date-only lines of years >= from-year. Fraction counts k/n are also recomputed from the unfiltered run's own fraction list cut at the to-date; an [accounting_methods] schedule x from-dates goes through the real CLI. The 34 asset sheets of the 9 inputs bundled with RP2 x every window over their transaction dates and year bounds x fifo / hifo are judged too.",
+        text="Every valid multi-year history up to depth 3 (thorough 4) over 7 symbols x fifo/hifo (thorough: 4 methods) x EVERY window from <= to (either bound may be absent) over each transaction date +-1 day, Jan 1 / Jul 1 / Dec 31 of touched years and dates outside the history (150-250 windows per history), also with every timestamp in +09:00 so that own calendar date != UTC date: rows and fractions shown are exactly those dated in the window, every figure equals the unfiltered run, counts / balances / average price equal the to-date-only run, yearly lines are the to-date-only lines of years >= from-year. Fraction counts k/n are also recomputed from the unfiltered run's own fraction list cut at the to-date; an [accounting_methods] schedule x from-dates goes through the real CLI. The 34 asset sheets of the 9 inputs bundled with RP2 x every window over their transaction dates and year bounds x fifo / hifo are judged too. The sold-% of every lot shown must equal the fractions shown for it / its amount.",
         note="Differential against the real code's own unfiltered run; the sold-% column is per-window by definition and not judged.",
         design="3/C10",
     ),
     "C11": dict(
         category="exploration",
         technique="bounded-exhaustive enumeration of column layouts, table orders and blank-row placements on the real parse_ods (in-memory and saved .ods), field-by-field reference rendering in exact rationals",
-        text="Per table every rotation, every transposition, the reversal, every proper subset of optional columns mapped (in place and compacted) and an unmapped column at every gap; all 6 table orders x leading / between / trailing blank rows, table subsets, a saved-and-reopened file for every rotation, and pairs of layout deviations across two tables (thorough: rotation+transposition inside a table, table order x rotation; 65 000 layouts). Every case parses a typed palette (every IN / OUT type, every optional-cell pattern including crypto fee with exchange-supplied fiat totals, transfers with / without fee and spot price, self-transfer; every numeric cell a different 11-decimal value, zones differ, sheet order is not time order) and each field of each parsed transaction is compared with the generating row; crypto-fee acquisitions must split into acquisition + artificial FEE disposal with a negative id.",
+        text="Per table every rotation, every transposition, the reversal, every proper subset of optional columns mapped (in place and compacted) and an unmapped column at every gap; all 6 table orders x leading / between / trailing blank rows, table subsets, a saved-and-reopened file for every rotation, and pairs of layout deviations across two tables (thorough: rotation+transposition inside a table, table order x rotation; 65 000 layouts). Every case parses a typed palette (every IN / OUT type, every optional-cell pattern including crypto fee with exchange-supplied fiat totals, transfers with / without fee and spot price, self-transfer; every numeric cell a different 11-decimal value, zones differ, sheet order is not time order) and each field of each parsed transaction is compared with the generating row; crypto-fee acquisitions must split into acquisition + artificial FEE disposal with a negative id. The palette includes an OUT row with a crypto fee and an explicit fiat fee of 0 (a supplied value, not an empty cell).",
         note="Numeric cells carry at most 15 significant digits (what a double holds exactly); derived fiat products are compared at 1e-15 relative.",
         design="3/C11",
     ),
     "C12": dict(
         category="fault_enumeration",
         technique="fault enumeration at every position: all row-kind sequences and all single/pair edits of well-formed sheets against a reference acceptor; every field / config / command-line fault class on parse_ods, Configuration and the real CLI",
-        text="(a1) every sequence of the 9 row kinds up to length 5 (thorough 7) and (a2) every single edit of 23 well-formed sheets plus every pair of edits of 4 (thorough: all 23) are parsed by the real parse_ods and compared with a reference acceptor of the documented grammar: broken structure must raise, well-formed sheets must return exactly their rows; (b) every documented field fault class at every row x field of a 3-asset base input must raise; (c) every config fault must raise in Configuration; (d,e) one instance of every fault class per asset and table (thorough: every single case), structure faults in the second asset, every config and command-line fault (-m vs [accounting_methods], method not accepted by the country, from > to, malformed dates, unknown language, missing / wrong-suffix / corrupt files, overdraft without -n) through the real command line: exit status != 0, an error message, no report file. Field faults in the last row of a table are also run with -t the day before / -f the day after the faulty row (rows outside the report window are input all the same).",
+        text="(a1) every sequence of the 11 row kinds (incl. a row of figures whose first cell is the number 0) up to length 5 (thorough 7) and (a2) every single edit of 23 well-formed sheets plus every pair of edits of 4 (thorough: all 23) are parsed by the real parse_ods and compared with a reference acceptor of the documented grammar: broken structure must raise, well-formed sheets must return exactly their rows; (b) every documented field fault class at every row x field of a 3-asset base input must raise; (c) every config fault must raise in Configuration; (d,e) one instance of every fault class per asset and table (thorough: every single case), structure faults in the second asset, every config and command-line fault (-m vs [accounting_methods], method not accepted by the country, from > to, malformed dates, unknown language, missing / wrong-suffix / corrupt files, overdraft without -n) through the real command line: exit status != 0, an error message, no report file. Field faults in the last row of a table are also run with -t the day before / -f the day after the faulty row (rows outside the report window are input all the same).",
         note="Sequences the documentation does not classify (repeated empty table, table without header line, wrong-shaped row in header position) are counted and not judged. The base input is first run unmodified and must succeed, so rejections are not vacuous.",
         design="3/C12",
     ),
     "C13": dict(
         category="exploration",
         technique="bounded-exhaustive history tree x second asset x windows x methods x country/language through spreadsheet -> parse_ods -> compute_tax -> the real rp2_full_report plugin in a forked child; .ods read back (direct content.xml reader) and compared cell by cell",
-        text="Asset B1 ranges over every valid history up to depth 3 over a 9-symbol multi-year alphabet (incl. a purchase with crypto fee, FEE-typed and gift disposals, fee-bearing transfer), asset B2 over fixed histories with colliding spreadsheet row numbers, unique ids and notes on all rows, sheet order different from time order; x 10 windows (none / from / to / both, empty and one-day windows) x fifo / hifo / fifo->hifo schedule x 6 country-language pairs (slice). Each case runs the real generator once; the written file is read back and every In/Out/Intra row, running sum and sold % (also recomputed independently from the input rows), summary line, balance and holder total, average price, detail row (amount, proceeds, cost, gain, LONG/SHORT, k/n labels, lot figures), the Summary sheet and the Legend (method(s), filters) is compared with the ComputedData the generator was given. Balances, the rows shown and the taxable events of the window are also recomputed from the input rows alone (reference account replay, own calendar dates); depth <= 2 also with every timestamp at +09:00 / -05:00; the second asset includes a transfer inside one account. The data of the 9 inputs bundled with RP2 (all asset sheets of a file in one run, up to 41 transactions per sheet, 4 exchanges x 2 holders, exchange-supplied fiat values) x methods x 10 date windows is read back the same way.",
+        text="Asset B1 ranges over every valid history up to depth 3 over a 9-symbol multi-year alphabet (incl. a purchase with crypto fee, FEE-typed and gift disposals, fee-bearing transfer), asset B2 over fixed histories with colliding spreadsheet row numbers, unique ids and notes on all rows, sheet order different from time order; x 10 windows (none / from / to / both, empty and one-day windows) x fifo / hifo / fifo->hifo schedule x 6 country-language pairs (slice). Each case runs the real generator once; the written file is read back and every In/Out/Intra row, running sum and sold % (also recomputed independently from the input rows), summary line, balance and holder total, average price, detail row (amount, proceeds, cost, gain, LONG/SHORT, k/n labels, lot figures), the Summary sheet and the Legend (method(s), filters) is compared with the ComputedData the generator was given. Balances, the rows shown and the taxable events of the window are also recomputed from the input rows alone (reference account replay, own calendar dates); depth <= 2 also with every timestamp at +09:00 / -05:00; the second asset includes a transfer inside one account. The data of the 9 inputs bundled with RP2 (all asset sheets of a file in one run, up to 41 transactions per sheet, 4 exchanges x 2 holders, exchange-supplied fiat values) x methods x 10 date windows is read back the same way. Also: every timestamp at -05:00 / +09:00 around New Year (own year != UTC year).",
         note="Plain cells are doubles (1e-11 relative); the correctness of the ComputedData itself is C01-C10's business. Tables are located by their translated titles, not by recomputing RP2's row arithmetic.",
         design="3/C13",
     ),
     "C19": dict(
         category="exploration",
         technique="same generator seam as C13 x every date window; every HYPERLINK formula is followed into the sheet and row it names and the unique id found there is compared",
-        text="Two assets sharing spreadsheet row numbers (their row orders run in opposite directions so that late rows of one collide with early rows of the other), unique ids on all rows; B1 = every valid history up to depth 3; depth <= 2: every from-only / to-only window over the dates of interest and from+to pairs (thorough: all pairs, 3 second assets, both row orders), depth 3: from-dates on / after each transaction. For every taxable-event and acquired-lot cell of '<asset> Tax': the link names '<asset> In-Out' and the row holding the same unique id, or the cell carries no link when the window hides the transaction; every Summary cell links to the first shown detail row of that year in that asset's Tax sheet (or carries no link when none is shown). The data of the 9 inputs bundled with RP2 (all asset sheets of a file in one run, up to 41 transactions per sheet, 4 exchanges x 2 holders, exchange-supplied fiat values) x methods x 10 date windows is read back the same way.",
+        text="Two assets sharing spreadsheet row numbers (their row orders run in opposite directions so that late rows of one collide with early rows of the other), unique ids on all rows; B1 = every valid history up to depth 3; depth <= 2: every from-only / to-only window over the dates of interest and from+to pairs (thorough: all pairs, 3 second assets, both row orders), depth 3: from-dates on / after each transaction. For every taxable-event and acquired-lot cell of '<asset> Tax': the link names '<asset> In-Out' and the row holding the same unique id, or the cell carries no link when the window hides the transaction; every Summary cell links to the first shown detail row of that year in that asset's Tax sheet (or carries no link when none is shown). The data of the 9 inputs bundled with RP2 (all asset sheets of a file in one run, up to 41 transactions per sheet, 4 exchanges x 2 holders, exchange-supplied fiat values) x methods x 10 date windows is read back the same way. Also: every timestamp at -05:00 / +09:00 around New Year (own year != UTC year).",
         note="Identity of a transaction in the report = the unique id printed on its In-Out row.",
         design="3/C19",
     ),
     "C20": dict(
         category="exploration",
         technique="exhaustive enumeration of year -> content assignments x second asset x row order x language through spreadsheet -> parse_ods -> compute_tax -> the real tax_report_jp plugin in a forked child; .ods read back, cross-sheet formulas compared as text",
-        text="Asset B1: every assignment of the years 2019..2022 to {nothing, buy, sell, transfer with fee} that never over-spends, plus every 3-year (thorough: every 4-year) assignment over a 7-item menu (buy+sell, fee-less transfer, a Dec 31 purchase at -05:00 whose UTC year is the next one); x second asset (none or one of 4 fixed patterns incl. one that starts later than B1) x row order (years first seen in / out of order across the IN / OUT / INTRA tables) x language en / kl. Read-back: exactly one '<asset>_<year>' sheet per asset-year with transactions, each of the year's value-carrying transactions once in time order (month, day, client, type, purchase and sale amounts and yen), one '<year>_Summary' per year with one line per asset whose formulas point into that asset-year sheet and at its closing-balance cells, and every opening balance = the closing-balance cells of the same asset's most recent earlier sheet, or 0. The menu includes two transactions at the same instant written in different UTC offsets. The fee-in-yen column is compared too. The data of the 9 inputs bundled with RP2 (up to 4 assets, several years) is read back the same way.",
+        text="Asset B1: every assignment of the years 2019..2022 to {nothing, buy, sell, transfer with fee} that never over-spends, plus every 3-year (thorough: every 4-year) assignment over a 7-item menu (buy+sell, fee-less transfer, a Dec 31 purchase at -05:00 whose UTC year is the next one); x second asset (none or one of 4 fixed patterns incl. one that starts later than B1) x row order (years first seen in / out of order across the IN / OUT / INTRA tables) x language en / kl. Read-back: exactly one '<asset>_<year>' sheet per asset-year with transactions, each of the year's value-carrying transactions once in time order (month, day, client, type, purchase and sale amounts and yen), one '<year>_Summary' per year with one line per asset whose formulas point into that asset-year sheet and at its closing-balance cells, and every opening balance = the closing-balance cells of the same asset's most recent earlier sheet, or 0. The menu includes two transactions at the same instant written in different UTC offsets. The fee-in-yen column is compared too. The data of the 9 inputs bundled with RP2 (up to 4 assets, several years) is read back the same way. One of the menu's sales pays its fee in yen (fiat_fee column).",
         note="Cells are located through the sheet's own structure (the purchases formula anchors the balance block), not by recomputing RP2's row arithmetic.",
         design="3/C20",
     ),
     "C14": dict(
         category="exploration",
         technique="exhaustive enumeration of pairs of the 14 taxable kinds over two assets x windows x {US, IE} through spreadsheet -> parse_ods -> compute_tax -> the real tax_report plugin in a forked child; .ods read back",
-        text="For the US and the IE plugin and windows none / from / to: every single kind, every ordered pair (k1 on asset B1, k2 on asset B2) of the 14 taxable kinds (7 income types, DONATE / FEE / GIFT / LOST / SELL / STAKING disposals, fee-bearing transfer), pairs of kinds on one asset six months apart, all 14 kinds on one and on both assets (thorough: triples); every disposal spans a lot older and a lot younger than one year. Read-back: each fraction of the window is on exactly one row of exactly the sheet an independent type -> sheet table names (fee / lost / transfer fee on Investment Expenses), with amount, dates acquired and sold in the plugin's format, proceeds, cost basis, gain, LONG/SHORT, k/n labels and type string as computed; no stray or duplicate rows; sheets without rows absent; Legend = method and filters. The taxable events inside the window are also recomputed from the input rows (own date, both bounds inclusive), incl. a window whose from = to = the day of an event. All 14 kinds on both assets are also run under lifo / hifo / lofo (US). The data of the 9 inputs bundled with RP2 (all asset sheets of a file in one run, up to 41 transactions per sheet, 4 exchanges x 2 holders, exchange-supplied fiat values) x methods x 10 date windows is read back the same way.",
+        text="For the US and the IE plugin and windows none / from / to: every single kind, every ordered pair (k1 on asset B1, k2 on asset B2) of the 14 taxable kinds (7 income types, DONATE / FEE / GIFT / LOST / SELL / STAKING disposals, fee-bearing transfer), pairs of kinds on one asset six months apart, all 14 kinds on one and on both assets (thorough: triples); every disposal spans a lot older and a lot younger than one year. Read-back: each fraction of the window is on exactly one row of exactly the sheet an independent type -> sheet table names (fee / lost / transfer fee on Investment Expenses), with amount, dates acquired and sold in the plugin's format, proceeds, cost basis, gain, LONG/SHORT, k/n labels and type string as computed; no stray or duplicate rows; sheets without rows absent; Legend = method and filters. The taxable events inside the window are also recomputed from the input rows (own date, both bounds inclusive), incl. a window whose from = to = the day of an event. All 14 kinds on both assets are also run under lifo / hifo / lofo (US). The data of the 9 inputs bundled with RP2 (all asset sheets of a file in one run, up to 41 transactions per sheet, 4 exchanges x 2 holders, exchange-supplied fiat values) x methods x 10 date windows is read back the same way. Also: the second asset's transactions at the very same instants as the first asset's, written in UTC (another calendar day as written).",
         note="Rows are matched to fractions by (asset, event unique id, lot unique id).",
         design="3/C14",
     ),
     "C15": dict(
         category="exploration",
         technique="bounded-exhaustive multi-holder history tree x second asset x methods x to-dates through spreadsheet -> parse_ods -> compute_tax -> the real open_positions plugin in a forked child; .ods read back against exact-rational reference figures",
-        text="Asset B1 = every history up to depth 3 over 10 symbols on 3 accounts (2 exchanges x 2 holders; steps +1h / +1d / +1y) in which no account is ever overdrawn, asset B2 = none or one of 2 fixed multi-holder histories; x fifo / lifo / hifo / lofo x to-date (none, year ends, every transaction day and the day before). Read-back of both sheets: exactly the holders / (exchange, holder) accounts with a positive balance of an asset that has unsold lot parts; crypto balance = reference account replay of the input rows; per-unit cost = cost (with fees) of the unconsumed lot parts / total balance; unrealized cost per row; weights add up to 100 % on both sheets; realized cost of the detail fractions + unrealized cost in the report = cost of everything acquired. Lots and their cost (amount x price + fee, crypto fee x price) are also recomputed from the input rows (own date <= to-date); depth <= 2 also with every timestamp at +09:00 / -05:00; one lot of asset B2 is bought with a crypto fee. Depth <= 2 also with every price x 1/320000 (per-unit cost of a fraction of a cent).",
+        text="Asset B1 = every history up to depth 3 over 10 symbols on 3 accounts (2 exchanges x 2 holders; steps +1h / +1d / +1y) in which no account is ever overdrawn, asset B2 = none or one of 2 fixed multi-holder histories; x fifo / lifo / hifo / lofo x to-date (none, year ends, every transaction day and the day before). Read-back of both sheets: exactly the holders / (exchange, holder) accounts with a positive balance of an asset that has unsold lot parts; crypto balance = reference account replay of the input rows; per-unit cost = cost (with fees) of the unconsumed lot parts / total balance; unrealized cost per row; weights add up to 100 % on both sheets; realized cost of the detail fractions + unrealized cost in the report = cost of everything acquired. Lots and their cost (amount x price + fee, crypto fee x price) are also recomputed from the input rows (own date <= to-date); depth <= 2 also with every timestamp at +09:00 / -05:00; one lot of asset B2 is bought with a crypto fee. Depth <= 2 also with every price x 1/320000 (per-unit cost of a fraction of a cent). Also: an exchange that is called like one of the holders.",
         note="The consumed part of each lot is taken from the computed fractions (C01/C02 judge those); balances are recomputed independently.",
         design="3/C15",
     ),
     "C16": dict(
         category="exploration",
         technique="exhaustive option matrix (entry point x method x language x [accounting_methods] x input shape x date filter) on the real command-line entry points, each run in a fresh forked process",
-        text="Every supported configuration - rp2_us / jp / es / ie / generic x -m absent and every accepted method x -g absent (the country default, incl. rp2_jp's 'ja') and every language with templates x [accounting_methods] absent / one entry (also with a year other than 1970) / several entries - crossed with 12 input shapes (single / multi asset, sparse years, asset fully sold in thirds, income-only asset, transfers with / without fee and spot price across holders, all 14 types, crypto-fee purchase, mixed zones at New Year, an asset starting years after the others, a disposal over 30 lots, equal timestamps) and date filters from {before all, year start / mid-year / year end, the day after a year's last taxable event, the day before an asset's first acquisition, after all} (quick: no filter + 3 rotating filters per pair and all single-bound filters for plain rp2_us, 2 264 runs; thorough: all single-bound filters everywhere, all from <= to pairs for the us / jp defaults). Each run must exit 0, write every report of the country as a readable spreadsheet and nothing else, and log no traceback. Shapes now also include 160 weekly purchases liquidated by two sales (160 fractions for 2 events) and two same-instant disposals of which the first uses up exactly one lot. The 9 inputs bundled with RP2 (input/*.ods with their config files, run with -n as RP2's own golden-file tests do) are crossed with rp2_us x every method, the other entry points with default options, and 5 date windows.",
+        text="Every supported configuration - rp2_us / jp / es / ie / generic x -m absent and every accepted method x -g absent (the country default, incl. rp2_jp's 'ja') and every language with templates x [accounting_methods] absent / one entry (also with a year other than 1970) / several entries - crossed with 12 input shapes (single / multi asset, sparse years, asset fully sold in thirds, income-only asset, transfers with / without fee and spot price across holders, all 14 types, crypto-fee purchase, mixed zones at New Year, an asset starting years after the others, a disposal over 30 lots, equal timestamps) and date filters from {before all, year start / mid-year / year end, the day after a year's last taxable event, the day before an asset's first acquisition, after all} (quick: no filter + 3 rotating filters per pair and all single-bound filters for plain rp2_us, 2 264 runs; thorough: all single-bound filters everywhere, all from <= to pairs for the us / jp defaults). Each run must exit 0, write every report of the country as a readable spreadsheet and nothing else, and log no traceback. Shapes now also include 160 weekly purchases liquidated by two sales (160 fractions for 2 events) and two same-instant disposals of which the first uses up exactly one lot. The 9 inputs bundled with RP2 (input/*.ods with their config files, run with -n as RP2's own golden-file tests do) are crossed with rp2_us x every method, the other entry points with default options, and 5 date windows. One shape is written in a layout whose INTRA section reaches further right than IN / OUT, every sheet only as wide as its own tables need (an asset without transfers has a narrower sheet).",
         note="Excluded as unsupported: rp2_jp with -f and -t together (refused by message), schedules that do not cover the input's first year.",
         design="3/C16",
     ),
@@ -143,7 +143,7 @@ CHECKS = {
     "C18": dict(
         category="exploration",
         technique="monitored real CLI runs (audit hook installed before the first rp2 import + sha256 snapshot of the private directory tree, two consecutive runs per case) over valid and invalid inputs; exhaustive syntactic walk over every module of the package",
-        text="Dynamic: 12 (entry point, options) configurations x filters / prefix / -a on 3 valid input shapes (thorough: all 12 shapes), an [accounting_methods] run per shape, and one instance of every fault class of C12's end-to-end list (bad fields per table, broken sheets, malformed configs, conflicting options, missing / corrupt files, overdraft), each run twice into the same output directory in a fresh interpreter: no socket / subprocess / exec / spawn / fork / urllib / http / ftp / smtp / webbrowser audit event; every file opened for writing, renamed, removed or created lies under the output directory or ./log; the snapshot shows changes only there; input .ods and .ini byte-identical. Static: all 52 modules of the rp2 package parsed, every import and call name checked against a deny-list of networking / process / host-query facilities. Invalid inputs include deprecated-JSON configuration files; foreign files placed in the output directory beforehand (archive copies named like a report plus a suffix) must survive byte-identical.",
+        text="Dynamic: 12 (entry point, options) configurations x filters / prefix / -a on 3 valid input shapes (thorough: all 12 shapes), an [accounting_methods] run per shape, and one instance of every fault class of C12's end-to-end list (bad fields per table, broken sheets, malformed configs, conflicting options, missing / corrupt files, overdraft), each run twice into the same output directory in a fresh interpreter: no socket / subprocess / exec / spawn / fork / urllib / http / ftp / smtp / webbrowser audit event; every file opened for writing, renamed, removed or created lies under the output directory or ./log; the snapshot shows changes only there; input .ods and .ini byte-identical. Static: all 52 modules of the rp2 package parsed, every import and call name checked against a deny-list of networking / process / host-query facilities. Invalid inputs include deprecated-JSON configuration files; foreign files placed in the output directory beforehand (archive copies named like a report plus a suffix) must survive byte-identical. Symbolic links named exactly like reports of the run (one to a file in an archive directory outside the output directory, one dangling) are placed in the output directory: what they point at must stay untouched and nothing may appear next to it.",
         note="Behaviour on paths no explored run reaches is covered only by the syntactic walk; the audit hook sees CPython-level events, not raw system calls of C extensions.",
         design="3/C18",
     ),
